@@ -121,9 +121,9 @@ def gen(rng, i, tier):
     props, charts = rand_ssc(rng)
     ts = tc = None
     if rng.random() < 0.25:
-        ts = {"props": rng.choice(["blank", "blank", "empty"]), "extra": [["CREDIT", "tmpl"], ["X", "y"]][: rng.randrange(0, 3)], "charts": rng.choice([0, 0, 1])}
+        ts = {"props": rng.choice(["blank", "blank", "empty"]), "extra": [["CREDIT", "tmpl"], ["X", "y"]][: rng.randrange(0, 3)], "charts": rng.choice([0, 0, 1]), "extras": rng.random() < 0.5}
     if rng.random() < 0.2:
-        tc = {"radar": rng.choice(["1,2,3", "0"])}
+        tc = {"radar": rng.choice(["1,2,3", "0"]), "extras": rng.random() < 0.5}
     return {"src": ["lit", [props, charts]], "beh": beh, "ts": ts, "tc": tc}
 
 
@@ -158,9 +158,13 @@ def build(c):
             ts[kk] = vv
         for j in range(c["ts"]["charts"]):
             ch = SMChart.blank(); ch.description = "template chart %d" % j
+            if c["ts"].get("extras"):
+                ch.extradata = ["template extra %d" % j, "x:y"]          # SM charts may carry extra NOTES components
             ts.charts.append(ch)
     if c["tc"]:
         tc = SMChart.blank(); tc.radarvalues = c["tc"]["radar"]
+        if c["tc"].get("extras"):
+            tc.extradata = ["chart template extra"]
     return ssc, ts, tc
 
 
@@ -190,6 +194,10 @@ def impl(c):
         res = ["err", "key"]
     o = {"res": res, "unmodified": [c16.snapshot(ssc), c16.snapshot(ts), c16.snapshot(tc)] == before}
     if res[0] == "ok":
+        # templates respected down to the charts' extra components
+        want = [list(getattr(x, "extradata", None) or []) for x in (ts.charts if ts is not None and len(ts) else [])]
+        want += [list(getattr(tc, "extradata", None) or []) if tc is not None else [] for _ in ssc.charts]
+        o["extras_ok"] = [list(getattr(x, "extradata", None) or []) for x in out.charts] == want
         shared = any(x is y for x in out.charts for y in (ts.charts if ts is not None else [])) or any(x is tc for x in out.charts)
         out["TITLE"] = "mutated"
         for x in out.charts:
@@ -221,6 +229,7 @@ def model(c, ans):
     o = {"res": r, "unmodified": True}
     if r[0] == "ok":
         o["no_sharing"] = True
+        o["extras_ok"] = True
     return o
 
 
@@ -305,6 +314,8 @@ def oracle(c, o):
         for a, b in zip(sc, out_charts):
             if [x.strip() if i < 6 else x for i, x in enumerate(a[:6])] != [v for k, v in b]:
                 return "round trip changed a chart"
+    if o.get("res", [""])[0] == "ok" and o.get("extras_ok") is not True:
+        return "the converted charts do not carry the extra components of the templates they were copied from"
     if o.get("unmodified") is not True or o.get("no_sharing") is not True:
         return "inputs modified or shared (unmodified=%s no_sharing=%s)" % (o.get("unmodified"), o.get("no_sharing"))
     return None
